@@ -213,6 +213,9 @@ def check_garbage(ctx, rng, drv):
     cases = []
     for n in [0, 1, 15, 16, 17, 83, 121, 122, 123, 145, 146, 423, 424, 425, 511, 512, 513, 935, 936, 937, 3219, 3220, 5000]:
         cases.append(("random-%d" % n, bytes(rng.randrange(256) for _ in range(n)), False))
+    for n in [2, 3, 4, 10, 18, 500]:
+        # junk that merely BEGINS with the gzip magic
+        cases.append(("gzip-magic-then-junk-%d" % n, b"\x1f\x8b" + bytes(rng.choice([0, 1, 7, 9, 255, rng.randrange(256)]) for _ in range(n - 2)), False))
     for f, data in good.items():
         for cut in [0, 10, 16, 21, 39, 63, 64, 84, 100, 146, 188, 423, 424, 600]:
             # a truncation that leaves the whole header intact may still be selected by its name
@@ -237,6 +240,12 @@ def check_garbage(ctx, rng, drv):
             i = rng.randrange(10, len(b))
             b[i] ^= 1 << rng.randrange(8)
             cases.append(("gzip-flip-%s-%d" % (f, i), bytes(b), None))     # may still decode
+        for hb in range(10):
+            # damage in each byte of the 10-byte gzip member header (magic, compression method, flags, time, ...)
+            for bit in (0, 3, 7):
+                b = bytearray(gz)
+                b[hb] ^= 1 << bit
+                cases.append(("gzip-header-%s-%d.%d" % (f, hb, bit), bytes(b), False if hb < 3 else None))
         cases.append(("gzip-empty-%s" % f, gzip.compress(b""), False))
         cases.append(("gzip-of-garbage-%s" % f, gzip.compress(bytes(rng.randrange(256) for _ in range(2000))), False))
     for tag, data, acceptable in cases:
